@@ -1905,7 +1905,9 @@ class Network(Cached):
             nodew = sp.csc_matrix(np.eye(self.N) * self.node_weights)
         if key is None:
             # pylint: disable=possibly-used-before-assignment
-            A = self.sp_Aplus() * nodew if nsi else self.sp_A
+            #  (count motifs with native integers: products of the 16 bit
+            #   adjacency matrix overflow on large dense networks)
+            A = self.sp_Aplus() * nodew if nsi else self.sp_A.astype(int)
             AT = self.sp_Aplus().T * nodew if nsi else A.T
         else:
             M = sp.csc_matrix(self.link_attribute(key)**(1/3.))
